@@ -323,7 +323,8 @@ type request struct {
 	release chan int
 	done    chan struct{}
 	fell    int32
-	abort   int // the fallback handler, if it gets this request, gives up by panicking (1: http.ErrAbortHandler, 2: a bug)
+	quiet   bool // the protected handler, when it is to answer 200, says so by not choosing a status at all
+	abort   int  // the fallback handler, if it gets this request, gives up by panicking (1: http.ErrAbortHandler, 2: a bug)
 }
 
 type reqKey struct{}
@@ -350,6 +351,7 @@ func (r *runner) arrive(abandoned bool) (pass bool, err error) {
 	if r.nreq%5 == 2 {
 		rq.abort = 1 + (r.nreq/5)%2
 	}
+	rq.quiet = r.nreq%2 == 0
 	req := hlib.Vary(httptest.NewRequest(http.MethodGet, "http://example.com/", nil), r.nreq)
 	ctx := context.WithValue(req.Context(), reqKey{}, rq)
 	if abandoned {
@@ -558,6 +560,12 @@ func (c *cbComp) Run(h *hlib.History) ([]hlib.Mon, bool) {
 		}
 		if code%3 == 0 {
 			w.WriteHeader(http.StatusEarlyHints) // an interim response first: the response's status is the final one
+		}
+		if code == http.StatusOK && rq.quiet {
+			if rq.start%2 == 0 {
+				_, _ = w.Write([]byte("ok")) // the status is implied by the first write ...
+			}
+			return // ... or by returning without having written anything
 		}
 		w.WriteHeader(code)
 	})
